@@ -215,6 +215,68 @@ pub fn suite_c04(ctx: &mut Ctx) {
             run_history(ctx, ty, 0, &steps, 1, h % 5 == 0);
             ctx.sink.free = true;
         }
+        // directed: tie + dust with the dust at a CHOSEN distance below the leading bit (every distance from just below
+        // the rounding position to 200 positions down, weighted towards 63..65 and 127..129) and the leading bit at a
+        // chosen position within its 64-bit limb (weighted towards the top and bottom bit of a limb)
+        let nd2 = ctx.q(1500, 30_000);
+        let lsb: i32 = match ty.n { 8 => -12, 16 => -56, _ => -240 };
+        for h in 0..nd2 {
+            let maxs = ((ty.n - 2) << ty.es) as i32;
+            // leading-bit scale: position (scale - lsb) mod 64 in {63, 0, 62, 1, random}
+            let mut scale = ctx.rng.gen_range(-maxs / 2..maxs - 1);
+            let want = match h % 5 { 0 => 63, 1 => 0, 2 => 62, 3 => 1, _ => -1 };
+            if want >= 0 {
+                let cur = (scale - lsb).rem_euclid(64);
+                scale += want - cur;
+                if scale >= maxs {
+                    scale -= 64;
+                }
+                if scale <= -maxs {
+                    continue;
+                }
+            }
+            let big = gen::from_scale(ty.n, ty.es, scale, match h % 3 { 0 => 0, 1 => ctx.rng.gen::<u64>(), _ => u64::MAX });
+            let (_, sc, nf, _) = gen::decode(ty.n, ty.es, big);
+            if sc - (nf as i32) - 1 < -maxs {
+                continue;
+            }
+            let half = gen::from_scale(ty.n, ty.es, sc - nf as i32 - 1, 0);
+            let delta = match ctx.rng.gen_range(0..6) {
+                0 => ctx.rng.gen_range(63..=65),
+                1 => ctx.rng.gen_range(127..=129),
+                2 => nf as i32 + 2 + ctx.rng.gen_range(0..4),
+                _ => ctx.rng.gen_range(nf as i32 + 2..nf as i32 + 200),
+            };
+            let target = sc - delta;
+            if target < lsb {
+                continue;
+            }
+            // the dust as a product of two powers of two (or with random fractions one time in three)
+            let t1 = (target / 2).clamp(-maxs, maxs);
+            let t2 = target - t1;
+            if t2 < -maxs || t2 > maxs {
+                continue;
+            }
+            let fr = |ctx: &mut Ctx| if ctx.rng.gen_range(0..3) == 0 { ctx.rng.gen::<u64>() } else { 0 };
+            let (f1, f2) = (fr(ctx), fr(ctx));
+            let dust_a = gen::from_scale(ty.n, ty.es, t1, f1);
+            let dust_b = gen::from_scale(ty.n, ty.es, t2, f2);
+            ctx.sink.boundary();
+            ctx.sink.free = false;
+            let neg_all = ctx.rng.gen::<bool>();
+            let sg = |p: u64| if neg_all { gen::neg(ty.n, p) } else { p };
+            let one = 1u64 << (ty.n - 2);
+            let mut steps = vec![
+                Step { op: "q_add", sp: "pp", x: vec![sg(big), one], bs: vec![] },
+                Step { op: "q_add", sp: "p", x: vec![sg(half)], bs: vec![] },
+                Step { op: if ctx.rng.gen::<bool>() { "q_add" } else { "q_sub" }, sp: "pp", x: vec![dust_a, dust_b], bs: vec![] },
+            ];
+            if h % 3 == 0 {
+                steps.swap(0, 2);
+            }
+            run_history(ctx, ty, 0, &steps, 1, h % 7 == 0);
+            ctx.sink.free = true;
+        }
         // directed: single products of operands with dense fractions (all ones / random with the last bit set)
         // for every pair of operand shapes (regime x exponent): every alignment of the product's lowest bit
         // against the quire's 64-bit limbs, with and without a mantissa carry; the bit image must be exact
